@@ -9,6 +9,7 @@ DECIDED = ("R1 Net::rules is an insertion-ordered chain: inserted with a fresh i
            "position found by binary search on (deliver_at, seq) with seq from a monotone counter; the due prefix is cut at the "
            "first `deliver_at > now`; R5 Drop for RuleGuard uninstalls its id, forget is the only way out, RuleGuard is !Send.")
 NOT_DECIDED = "delivery instants relative to tokio's clock; the rules' own verdict logic."
+DECIDED += "; R4 also: packets that fell due are delivered before this tick's egress is drained and routed"
 ASSUMPTIONS = ["IndexMap::shift_remove preserves the order of the remaining entries; Vec::insert keeps order"]
 
 RULES = "turmoil_net::Net::rules"
